@@ -2,14 +2,17 @@ import Holpy.C13.Proofs
 import Holpy.C13.Goal
 import Holpy.C13.Numbering
 import Holpy.C13.Remove
+import Holpy.C13.Tactic
 /-
-C13 — property theorems about the structural model of Holpy/C13/Model.lean (numbering and
-citations of a proof state under the editing operations).  What is proved is the *citation* half
-of well-formedness and the persistence of the top-level lines under edits inside subproofs; the
-numbering half (`numberedFrom`: ids equal positions), `remove_line`, edits at top level and the
-composite `apply_tactic` are not proved here — they are covered on every run by the correspondence
-stream (the model's result and its executable `wf` verdict against the real `ProofState` after
-every recorded primitive call) and by the property oracle of harness/props/c13.py.
+C13 — property theorems about the structural model of Holpy/C13/Model.lean.
+`wf` = every line carries the id of the position it sits at (contiguous numbering at every depth)
+∧ every citation satisfies `can_depend_on` ∧ a line without subproof has no subproof lines.
+Proved: each of the five operations (`add_line_before`, `remove_line`, `set_line`, `replace_id`,
+`apply_tactic`) preserves `wf` under the precondition the code establishes for it, hence every
+sequence does; in a well-formed state every citation names an existing earlier visible line.
+For the last top-level line (the stated goal) only the three primitive edits are covered
+(`goal_preserved_partial`, under `safeRun`); `replace_id` / `apply_tactic` and the export/import
+pair are judged by the oracle of harness/props/c13.py and the correspondence stream only.
 -/
 namespace Holpy.C13
 
@@ -70,14 +73,6 @@ theorem set_line_preserves_wf (s s' : Proof) (id : IId) (r : Nat) (p : List IId)
   exact ⟨numbered_setLine s s' id r p th hw.1 h, citesOk_setLine s s' id r p th hw.2.1 hp h,
     subOk_setLine s s' id r p th hw.2.2 h⟩
 
-/-- `remove_line(id)` of an existing line keeps the numbering contiguous.  Partial: that the
-citations stay admissible needs that no remaining line cites `id` (what `replace_id` establishes
-first); that half is not proved. -/
-theorem remove_line_preserves_numbering_partial (s s' : Proof) (id : IId) (cur : Item)
-    (hw : numberedFrom [] 0 s = true) (hex : findItem s id = some cur)
-    (h : removeLine s id = .ok s') : numberedFrom [] 0 s' = true :=
-  numbered_removeLine s s' id cur hw hex h
-
 /-- `remove_line(id)` of an existing line that no line of its proof (subproofs included) cites
 preserves well-formedness (lines of other proofs cannot cite it: `wf_citation_resolves`). -/
 theorem remove_line_preserves_wf (s s' : Proof) (id : IId) (cur : Item) (hw : wf s = true)
@@ -108,75 +103,59 @@ theorem wf_citation_resolves (s : Proof) (q : IId) (it : Item) (hw : wf s = true
   rw [hid] at hc
   exact ⟨hc, visible_line_exists p q s it hq hc⟩
 
-/-- Preconditions under which `edits_preserve_wf_partial` covers an operation: insertion before an
-existing line; a line set with citations that satisfy `can_depend_on` (what `apply_method` asserts
-of the selected facts); removal of an existing line that no line of its proof cites; replacement of
-an existing line by a line visible from it (what `find_goal` returns). -/
+/-- `apply_tactic(id, …)` as a whole — insertion of the lines, placement of the exported lines,
+replacement of gaps that an earlier visible line proves, trivial closing — preserves
+well-formedness, for exported lines without subproofs whose citations are admissible for the ids
+they carry (`shapeOk`; compared with every captured `ProofTerm.export` by the harness). -/
+theorem apply_tactic_preserves_wf (s s' : Proof) (id : IId) (new : List NewLine) (hw : wf s = true)
+    (hshape : shapeOk new) (h : applyTactic s id new = .ok s') : wf s' = true :=
+  wf_applyTactic s s' id new hw hshape h
+
+/-- The preconditions the code establishes before each operation: insertion before an existing
+line; a line set with citations that satisfy `can_depend_on` (what `apply_method` asserts of the
+selected facts); removal of an existing line that no line of its proof cites; replacement of an
+existing line by a line visible from it (what `find_goal` returns); a tactic whose exported lines
+are `shapeOk`. -/
 def wfSafe (s : Proof) : Op → Prop
   | .addLineBefore id _ => ∃ cur, findItem s id = some cur
   | .setLine id _ p _ => ∀ x ∈ p, canDependOn id x = true
   | .removeLine id => (∃ cur, findItem s id = some cur) ∧
       ∀ l, getAt id.dropLast s = some l → notCitedList id l = true
   | .replaceId old new => (∃ cur, findItem s old = some cur) ∧ canDependOn old new = true
-  | .applyTactic _ _ => False
+  | .applyTactic _ new => shapeOk new
 
 def wfSafeRun : Proof → List Op → Prop
   | _, [] => True
   | s, op :: ops => wfSafe s op ∧ ∀ s1, step s op = .ok s1 → wfSafeRun s1 ops
 
-/-- Every completed sequence of `add_line_before` / `set_line` / `remove_line` / `replace_id` calls
-that meet `wfSafe` keeps the state well-formed (numbering and citations).  Partial: `apply_tactic`
-as a composite (that its inner calls meet `wfSafe`) is not covered. -/
-theorem edits_preserve_wf_partial : ∀ (ops : List Op) (s s' : Proof), wf s = true →
+/-- Each of the five operations preserves well-formedness (ids equal positions at every depth;
+every citation satisfies `can_depend_on`, hence — `wf_citation_resolves` — names an existing
+earlier visible line) under the precondition the code establishes for it. -/
+theorem edit_preserves_wf (s s' : Proof) (op : Op) (hw : wf s = true) (hop : wfSafe s op)
+    (h : step s op = .ok s') : wf s' = true := by
+  cases op with
+  | addLineBefore id n =>
+    obtain ⟨cur, hc⟩ := hop
+    exact add_line_preserves_wf s s' id n cur hw hc h
+  | setLine id r p th => exact set_line_preserves_wf s s' id r p th hw hop h
+  | removeLine id =>
+    obtain ⟨⟨cur, hc⟩, hnc⟩ := hop
+    exact remove_line_preserves_wf s s' id cur hw hc hnc h
+  | replaceId o n =>
+    obtain ⟨⟨cur, hc⟩, hv⟩ := hop
+    exact replace_id_preserves_wf s s' o n cur hw hc hv h
+  | applyTactic id new => exact apply_tactic_preserves_wf s s' id new hw hop h
+
+/-- By induction, every completed sequence of operations that meet their preconditions keeps the
+state well-formed. -/
+theorem edits_preserve_wf : ∀ (ops : List Op) (s s' : Proof), wf s = true →
     wfSafeRun s ops → run s ops = .ok s' → wf s' = true
   | [], s, s', hw, _, h => by simp [run] at h; subst h; exact hw
   | op :: ops, s, s', hw, hs, h => by
     simp only [run] at h
     split at h
     · rename_i s1 h1
-      have hop := hs.1
-      have hw1 : wf s1 = true := by
-        cases op with
-        | addLineBefore id n =>
-          obtain ⟨cur, hc⟩ := hop
-          exact add_line_preserves_wf s s1 id n cur hw hc h1
-        | setLine id r p th => exact set_line_preserves_wf s s1 id r p th hw hop h1
-        | removeLine id =>
-          obtain ⟨⟨cur, hc⟩, hnc⟩ := hop
-          exact remove_line_preserves_wf s s1 id cur hw hc hnc h1
-        | replaceId o n =>
-          obtain ⟨⟨cur, hc⟩, hv⟩ := hop
-          exact replace_id_preserves_wf s s1 o n cur hw hc hv h1
-        | applyTactic id new => exact absurd hop (by simp [wfSafe])
-      exact edits_preserve_wf_partial ops s1 s' hw1 (hs.2 s1 h1) h
-    · simp at h
-
-/-- Operations covered by `edits_preserve_citations_partial`. -/
-def citeSafe : Op → Prop
-  | .addLineBefore _ _ => True
-  | .setLine id _ p _ => ∀ x ∈ p, canDependOn id x = true
-  | _ => False
-
-/-- Every sequence of `add_line_before` / `set_line` calls (the latter with admissible citations)
-that completes keeps all citations within `can_depend_on`.  Partial: `remove_line`, `replace_id`'s
-removal and `apply_tactic` are not covered, nor is the numbering half of well-formedness
-(`edit_preserves_wf` of DESIGN.md). -/
-theorem edits_preserve_citations_partial : ∀ (ops : List Op) (s s' : Proof), citesOkList s = true →
-    (∀ op ∈ ops, citeSafe op) → run s ops = .ok s' → citesOkList s' = true
-  | [], s, s', hw, _, h => by simp [run] at h; subst h; exact hw
-  | op :: ops, s, s', hw, hs, h => by
-    simp only [run] at h
-    split at h
-    · rename_i s1 h1
-      have hop := hs op (by simp)
-      have hw1 : citesOkList s1 = true := by
-        cases op with
-        | addLineBefore id n => exact citesOk_addLineBefore s s1 id n hw h1
-        | setLine id r p th => exact citesOk_setLine s s1 id r p th hw hop h1
-        | removeLine id => exact absurd hop (by simp [citeSafe])
-        | replaceId o n => exact absurd hop (by simp [citeSafe])
-        | applyTactic id new => exact absurd hop (by simp [citeSafe])
-      exact edits_preserve_citations_partial ops s1 s' hw1 (fun o ho => hs o (by simp [ho])) h
+      exact edits_preserve_wf ops s1 s' (edit_preserves_wf s s1 op hw hs.1 h1) (hs.2 s1 h1) h
     · simp at h
 
 /-- An edit whose target lies inside a subproof (`add_line_before`, `remove_line`, `set_line` with
@@ -228,8 +207,16 @@ example : (match run s1 [.addLineBefore [0, 1] 2, .setLine [0, 1] 6 [[0, 0]] (so
     | .ok s' => wf s' && (s'.map sigOf == s1.map sigOf) && citesOkList s'
     | .error _ => false) = true := by decide
 
-example : citeSafe (.setLine [0, 1] 6 [[0, 0]] (some ⟨9, [2]⟩)) := by
-  simp [citeSafe]; decide
+example : shapeOk [⟨.mk [0, 1] ruleSorry [] (some ⟨7, [2]⟩) false [], false⟩,
+    ⟨.mk [0, 2] 9 [[0, 0], [0, 1]] (some ⟨3, [2]⟩) false [], false⟩] := by
+  intro l hl
+  simp at hl
+  rcases hl with h | h <;> subst h <;> simp [Item.hasSub, Item.sub, Item.prevs, Item.id] <;> decide
+
+example : (match applyTactic s1 [0, 1] [⟨.mk [0, 1] ruleSorry [] (some ⟨7, [2]⟩) false [], false⟩,
+      ⟨.mk [0, 2] 9 [[0, 0], [0, 1]] (some ⟨3, [2]⟩) false [], false⟩] with
+    | .ok s' => wf s' && (sorrysList s' == [some ⟨7, [2]⟩])
+    | .error _ => false) = true := by decide
 
 example : wfSafeRun s1 [.addLineBefore [1] 1, .setLine [1] 6 [[0]] (some ⟨9, []⟩)] := by
   refine ⟨⟨_, rfl⟩, fun a _ => ⟨?_, fun _ _ => trivial⟩⟩
